@@ -9,6 +9,11 @@ import SpVerif.Model.Cds
 import SpVerif.Model.CfdpFront
 import SpVerif.Model.Tlv
 import SpVerif.Model.ByteField
+import SpVerif.Model.Factory
+import SpVerif.Model.Eof
+import SpVerif.Model.Finished
+import SpVerif.Model.Metadata
+import SpVerif.Model.MsgToUser
 /-!
 # Driver ops for C10 (prefix `c10_`): the accept / reject verdict of every public decoder
 
@@ -42,6 +47,28 @@ def feedTracker (s : Srv1.S1Tm) : Py Unit :=
   | .raised e, _ => .error e
   | _, .raised e => .error e
   | _, _ => .ok ()
+
+/-- `MessageToUserTlv.unpack(raw).to_reserved_msg_tlv()`, then — when a reserved message comes back —
+    the classification queries and all eight getters -/
+def reservedAll (raw : Bytes) : Py Unit := do
+  let m ← Tlv.MessageToUserTlv.unpack raw
+  match ← MsgToUser.toReservedMsgTlv m with
+  | none => pure ()
+  | some r =>
+    let _ ← r.isCfdpProxyOperation
+    let _ ← r.isDirectoryOperation
+    let _ ← r.isOriginatingTransactionId
+    let _ ← r.getCfdpProxyMessageType
+    let _ ← r.getDirectoryOperationType
+    let _ ← r.getOriginatingTransactionId
+    let _ ← r.getProxyPutRequestParams
+    let _ ← r.getProxyPutResponseParams
+    let _ ← r.getProxyClosureRequested
+    let _ ← r.getProxyTransmissionMode
+    let _ ← r.getDirListingRequestParams
+    let _ ← r.getDirListingResponseParams
+    let _ ← r.getDirListingOptions
+    pure ()
 
 /-- one decoder: reads its configuration from the op line and returns the verdict -/
 abbrev Dec := Json → Bytes → R Json
@@ -80,6 +107,22 @@ def decoders : List (String × Dec) := [
   ("hdr_len", fun _ raw => pure (verdict (CfdpHeader.headerLenFromRaw raw))),
   ("pdu_front", fun _ raw => pure (verdict (CfdpFront.pduFront raw))),
   ("dir_front", fun _ raw => pure (verdict (CfdpFront.directiveFront raw))),
+  -- CFDP PDUs, factory, reserved messages (stage 2)
+  ("directive_base", fun _ raw => pure (verdict (FileDirective.FileDirective.unpack raw))),
+  ("ack", fun _ raw => pure (verdict (Ack.Ack.unpack raw))),
+  ("prompt", fun _ raw => pure (verdict (Prompt.Prompt.unpack raw))),
+  ("keep_alive", fun _ raw => pure (verdict (KeepAlive.KeepAlive.unpack raw))),
+  ("nak", fun _ raw => pure (verdict (Nak.Nak.unpack raw))),
+  ("eof", fun _ raw => pure (verdict (Eof.Eof.unpack raw))),
+  ("finished", fun _ raw => pure (verdict (Finished.Finished.unpack raw))),
+  ("metadata", fun _ raw => pure (verdict (Metadata.Metadata.unpack raw))),
+  ("file_data", fun _ raw => pure (verdict (FileData.Pdu.unpack raw))),
+  ("pdu_type", fun _ raw => pure (verdict (Factory.pduType raw))),
+  ("is_file_directive", fun _ raw => pure (verdict (Factory.isFileDirective raw))),
+  ("pdu_directive_type", fun _ raw => pure (verdict (Factory.pduDirectiveType raw))),
+  ("factory", fun _ raw => pure (verdict (Factory.fromRaw raw))),
+  ("factory_holder", fun _ raw => pure (verdict (Factory.fromRawToHolder raw))),
+  ("reserved", fun _ raw => pure (verdict (reservedAll raw))),
   -- LV / TLV
   ("lv", fun _ raw => pure (verdict (Lv.CfdpLv.unpack raw))),
   ("tlv", fun _ raw => pure (verdict (Tlv.CfdpTlv.unpack raw))),
